@@ -290,7 +290,20 @@ def entrySize (b : Nat) : Nat := if b < 24 then 90 else 122
 header of `n`, `n` entries -/
 def replicateRequestSize (n b : Nat) : Nat := 77 + (encodeArg 4 n).length + n * entrySize b
 
-/-- the largest number of worst-case (`b ≥ 24`) records whose advertisement still fits the request limit -/
+/-- an advertised CHUNK: the same key and the unit variant `RecordType::Chunk` (text `"Chunk"`): `82`, the 45-byte key, `65 "Chunk"` = 52 bytes -/
+def chunkEntry (b : Nat) : CTree :=
+  .tup [.nvar (nm "RecordKey") (.bytes (List.replicate 32 b)), .uvar (nm "Chunk")]
+
+/-- the advertisement of a node holding `c` chunks and `n` non-chunk records (`fillReplicate n b = mixedReplicate 0 n b`) -/
+def mixedReplicate (c n b : Nat) : CTree :=
+  .nvar (nm "Cmd") (.nvar (nm "Replicate") (.record [(nm "holder", .nvar (nm "PeerId") (.bytes (List.replicate 38 b))),
+    (nm "keys", .seq (List.replicate c (chunkEntry b) ++ List.replicate n (fillEntry b)))]))
+
+def chunkEntrySize : Nat := 52
+
+def mixedRequestSize (c n b : Nat) : Nat := 77 + (encodeArg 4 (c + n)).length + c * chunkEntrySize + n * entrySize b
+
+/-- the largest number of worst-case (`b ≥ 24`) NON-CHUNK records whose advertisement still fits the request limit -/
 def replicateFits : Nat := (requestCap - 80) / 122
 
 /-- `Response::Query(QueryResponse::GetReplicatedRecord(Ok((NetworkAddress::RecordKey(""), <n bytes b>))))` -/
